@@ -3,7 +3,6 @@ package query
 import (
 	"strings"
 	"time"
-	"unicode/utf8"
 
 	"github.com/mithrandie/csvq/lib/parser"
 	"github.com/mithrandie/csvq/lib/value"
@@ -48,82 +47,67 @@ func Like(p1 value.Primary, p2 value.Primary) ternary.Value {
 	return matchText([]rune(str), []rune(pattern))
 }
 
+// matchText reports whether text matches the LIKE pattern: '%' stands for any
+// number of characters and '_' for exactly one. The text is compared with the
+// pattern from left to right; after a mismatch only the most recent '%' is
+// extended by one character, so the time is bounded by len(text) * len(pattern).
 func matchText(text []rune, pattern []rune) ternary.Value {
-	anyRunesMinLen, anyRunesMaxLen, searchWord, restPattern := matchCondition(pattern)
+	runes, wildcards := parseLikePattern(pattern)
 
-	anyRunes := text
-	if 0 < len(searchWord) {
-		textStr := string(text)
-		bidx := strings.Index(textStr, string(searchWord))
-		if bidx < 0 {
+	textPos, patternPos := 0, 0
+	anyRunesPos, anyRunesEnd := -1, 0
+	for textPos < len(text) {
+		switch {
+		case patternPos < len(runes) && wildcards[patternPos] && runes[patternPos] == '%':
+			anyRunesPos, anyRunesEnd = patternPos, textPos
+			patternPos++
+		case patternPos < len(runes) && (wildcards[patternPos] || runes[patternPos] == text[textPos]):
+			textPos++
+			patternPos++
+		case -1 < anyRunesPos:
+			anyRunesEnd++
+			textPos = anyRunesEnd
+			patternPos = anyRunesPos + 1
+		default:
 			return ternary.FALSE
 		}
-
-		idx := utf8.RuneCountInString(textStr[:bidx])
-		if anyRunesMaxLen < 0 && matchText(text[idx+1:], pattern) == ternary.TRUE {
-			return ternary.TRUE
-		}
-		anyRunes = text[:idx]
 	}
-
-	if len(anyRunes) < anyRunesMinLen {
-		return ternary.FALSE
+	for patternPos < len(runes) && wildcards[patternPos] && runes[patternPos] == '%' {
+		patternPos++
 	}
-	if -1 < anyRunesMaxLen && anyRunesMaxLen < len(anyRunes) {
-		return ternary.FALSE
-	}
-
-	if len(restPattern) < 1 {
-		return ternary.ConvertFromBool(len(anyRunes)+len(searchWord) == len(text))
-	}
-
-	return matchText(text[len(anyRunes)+len(searchWord):], restPattern)
+	return ternary.ConvertFromBool(patternPos == len(runes))
 }
 
-func matchCondition(pattern []rune) (anyRunesMinLen int, anyRunesMaxLen int, searchWord []rune, restPattern []rune) {
-	searchWord = make([]rune, 0, len(pattern)+4)
-	patternPos := 0
+// parseLikePattern resolves the escape sequences of a LIKE pattern. A backslash
+// makes a following '%' or '_' an ordinary character; in front of any other
+// character, and at the end of the pattern, it stands for itself.
+func parseLikePattern(pattern []rune) (runes []rune, wildcards []bool) {
+	runes = make([]rune, 0, len(pattern)+1)
+	wildcards = make([]bool, 0, len(pattern)+1)
 
 	escaped := false
-	for i := 0; i < len(pattern); i++ {
-		r := pattern[i]
-
-		if escaped {
-			switch r {
-			case '%', '_':
-				searchWord = append(searchWord, r)
-			default:
-				searchWord = append(searchWord, '\\', r)
+	for _, r := range pattern {
+		switch {
+		case escaped:
+			if r != '%' && r != '_' {
+				runes = append(runes, '\\')
+				wildcards = append(wildcards, false)
 			}
-			patternPos++
+			runes = append(runes, r)
+			wildcards = append(wildcards, false)
 			escaped = false
-			continue
-		}
-
-		if (r == '%' || r == '_') && 0 < len(searchWord) {
-			break
-		}
-		patternPos++
-
-		switch r {
-		case '%':
-			anyRunesMaxLen = -1
-		case '_':
-			anyRunesMinLen++
-			if -1 < anyRunesMaxLen {
-				anyRunesMaxLen++
-			}
-		case '\\':
+		case r == '\\':
 			escaped = true
 		default:
-			searchWord = append(searchWord, r)
+			runes = append(runes, r)
+			wildcards = append(wildcards, r == '%' || r == '_')
 		}
 	}
 	if escaped {
-		searchWord = append(searchWord, '\\')
+		runes = append(runes, '\\')
+		wildcards = append(wildcards, false)
 	}
-
-	return anyRunesMinLen, anyRunesMaxLen, searchWord, pattern[patternPos:]
+	return runes, wildcards
 }
 
 func InRowValueList(rowValue value.RowValue, list []value.RowValue, matchType int, operator string, datetimeFormats []string, location *time.Location) (ternary.Value, error) {
